@@ -136,7 +136,7 @@ class Configuration(object):
     @staticmethod
     def _load_ip_network(value):
         try:
-            return ip_network(value)
+            return ip_network(str(value))
         except (ValueError, TypeError) as ex:
             raise ConfigurationError(f'Could not parse {ex} as an IP network')
 
@@ -161,6 +161,8 @@ class Configuration(object):
 
     @staticmethod
     def _load_ip_address(hostname):
+        if not isinstance(hostname, str):
+            raise ConfigurationError(f'Could not resolve {hostname} into an IP address: it should be a string.')
         try:
             addr = ip_address(socket.getaddrinfo(hostname, None)[0][4][0])
             return ip_address(addr)
@@ -173,11 +175,17 @@ class Configuration(object):
             raise ConfigurationError(f'{what} should be a dictionary.')
 
     @staticmethod
-    def _load_int(conf_dict, key, default):
+    def _load_int(conf_dict, key, default, minimum=None, maximum=None):
+        value = conf_dict.get(key, default)
         try:
-            return int(conf_dict.get(key, default))
+            result = int(value)
         except (ValueError, TypeError, OverflowError):
             raise ConfigurationError(f'{key} should be an integer.')
+        if isinstance(value, float) and result != value:
+            raise ConfigurationError(f'{key} should be an integer.')
+        if (minimum is not None and result < minimum) or (maximum is not None and result > maximum):
+            raise ConfigurationError(f'{key} should be between {minimum} and {maximum}.')
+        return result
 
     @staticmethod
     def _load_bytes(conf_dict, key):
@@ -221,9 +229,9 @@ class Configuration(object):
 
         ip_proto = self._load_from_dict(conf_dict.get('ip_proto', 'any'), _ip_proto_name_to_enum)
         my_subnet = self._load_ip_network(conf_dict.get('my_subnet', ikeconf.my_addr))
-        my_port = self._load_int(conf_dict, 'my_port', 0)
+        my_port = self._load_int(conf_dict, 'my_port', 0, 0, 65535)
         peer_subnet = self._load_ip_network(conf_dict.get('peer_subnet', ikeconf.peer_addr))
-        peer_port = self._load_int(conf_dict, 'peer_port', 0)
+        peer_port = self._load_int(conf_dict, 'peer_port', 0, 0, 65535)
 
         return IpsecConfiguration(
             index=self._load_int(conf_dict, 'index', random.randint(0, 2 ** 20)),
